@@ -1093,6 +1093,9 @@ func (x *X) enterBlock(s *State) bool {
 			x.fail("loop %d has no invariant", ord)
 		}
 		if back {
+			// reachability witness: some path through the loop body must be satisfiable (a contradictory invariant or
+			// callee contract would make every preservation obligation vacuous)
+			x.emitPathCover(s, fmt.Sprintf("loop%d.body-end-reachable", ord), fr.prev.Index)
 			for k, c := range invs {
 				if c.Kind != "invariant" {
 					continue
@@ -2142,6 +2145,15 @@ func (x *X) emitCover(s *State, c *Clause, name string, res []Val, block int) {
 	}
 	o := &Oblig{Name: fmt.Sprintf("%s#cover.%s@b%d.%d", x.key, name, block, len(x.obligs)), Fn: x.key, Kind: "cover", Goal: "false",
 		PC: append(visiblePC(s.pc, c.Group), ante), Vacuity: true, Clause: "antecedent reachable: " + c.Text}
+	o.Decls = x.decls[:len(x.decls):len(x.decls)]
+	x.obligs = append(x.obligs, o)
+}
+
+
+// emitPathCover: "the quantifier-free part of the path condition is satisfiable here"; judged per name over all paths.
+func (x *X) emitPathCover(s *State, name string, block int) {
+	o := &Oblig{Name: fmt.Sprintf("%s#cover.%s@b%d.%d", x.key, name, block, len(x.obligs)), Fn: x.key, Kind: "cover", Goal: "false",
+		PC: visiblePC(s.pc, ""), Vacuity: true, Clause: "reachable: " + name}
 	o.Decls = x.decls[:len(x.decls):len(x.decls)]
 	x.obligs = append(x.obligs, o)
 }
